@@ -32,7 +32,7 @@ type copyCase struct {
 func (cc copyCase) String() string {
 	var parts []string
 	for i, f := range cc.Fields {
-		parts = append(parts, fmt.Sprintf("%s:%s", f.Term, []string{"neither", "to-only", "from-only", "both"}[cc.Combos[i]]))
+		parts = append(parts, fmt.Sprintf("%s:%s", f.Term, []string{"neither", "to-only", "from-only", "both", "both-same-id(to:iri,from:object)", "both-same-id(to:object,from:iri)"}[cc.Combos[i]]))
 	}
 	return cc.Kind.Name + " " + strings.Join(parts, " ")
 }
@@ -73,6 +73,21 @@ func runCopy(c *Ctx, cc copyCase, idx int) {
 		v.FieldByName("ID").Set(reflect.ValueOf(idv))
 		v.FieldByName("Type").Set(reflect.ValueOf(typ))
 		for i, f := range cc.Fields {
+			if cc.Combos[i] >= 4 {
+				// the same id on both sides, presented as a bare IRI on one and as an embedded object on the other
+				shared := vocab.IRI(fmt.Sprintf("https://example.com/shared/%s/%d", f.Term, idx))
+				asIRI := (cc.Combos[i] == 4) == (bit == 1)
+				var it vocab.Item = shared
+				if !asIRI {
+					it = &vocab.Object{ID: shared, Type: vocab.ImageType, Name: vocab.NaturalLanguageValues{{Ref: vocab.NilLangRef, Value: vocab.Content("embedded")}}}
+				}
+				if f.Type == vmodel.IcT {
+					v.Field(f.Index).Set(reflect.ValueOf(vocab.ItemCollection{it}))
+				} else {
+					v.Field(f.Index).Set(reflect.ValueOf(it))
+				}
+				continue
+			}
 			if cc.Combos[i]&bit != 0 {
 				g.SetShape(v.Field(f.Index), f.Type, firstShape(f.Type))
 			}
@@ -211,7 +226,10 @@ func init() {
 		k := vmodel.Kinds[vmodel.KindIndex(kn)]
 		fs := copyFields(k)
 		for _, f := range fs {
-			for combo := 0; combo < 4; combo++ {
+			for combo := 0; combo < 6; combo++ {
+				if combo >= 4 && f.Type.Kind() != reflect.Interface && f.Type != vmodel.IcT {
+					continue
+				}
 				singles = append(singles, single{k, f, combo})
 			}
 		}
@@ -226,7 +244,7 @@ func init() {
 	Register(&Prop{
 		ID: "C18",
 		Rule: "model: per merged property to' = from if set in from else to; id/type from from; every property of to' is what to had or what from has; nothing set in to and unset in from is lost; from unchanged (deep comparison incl. spare capacity of its lists). " +
-			"Exhaustive: Object, Actor and the four collection kinds x every property x the four (set in to?, set in from?) combinations; every property pair x 3 combination patterns; the refusal matrix (untyped nil, typed nil of each struct on either side, non-equivalent ids, differing types, unsupported types) demanding an error and an untouched to; random subsets of properties on both sides (the 2^n space, sampled); distinct = the case; non-trivial = at least one property set on either side",
+			"Exhaustive: Object, Actor and the four collection kinds x every property x the four (set in to?, set in from?) combinations, plus - for item and list properties - the same id on both sides presented as an IRI on one and as an embedded object on the other; every property pair x 3 combination patterns; 3 000 id pairs from the C14 grid (non-equivalent ids by the reference normaliser must be refused, equivalent ones accepted); the refusal matrix (untyped nil, typed nil of each struct on either side, non-equivalent ids, differing types, unsupported types) demanding an error and an untouched to; random subsets of properties on both sides (the 2^n space, sampled); distinct = the case; non-trivial = at least one property set on either side",
 		Layers: func(tier string) []Layer {
 			return []Layer{
 				{Name: "single-property", N: len(singles), Exhaustive: true, Run: func(c *Ctx, idx int) {
@@ -270,6 +288,35 @@ func init() {
 						c.Fail("copy|refusal|"+sig+"|from-modified", r.Name+": from was modified", map[string]any{"case": r.Name})
 					}
 				}},
+				{Name: "refusals-id-grid", N: 3000, Exhaustive: true, Run: func(c *Ctx, idx int) {
+					n := len(grid)
+					a := grid[(idx*131)%n]
+					b := grid[(idx*977+idx/7+1)%n]
+					equiv := a.Key[1] == b.Key[1]
+					to := &vocab.Object{ID: vocab.IRI(a.S), Type: vocab.NoteType, Name: vocab.NaturalLanguageValues{{Ref: vocab.NilLangRef, Value: vocab.Content("keep me")}}}
+					from := &vocab.Object{ID: vocab.IRI(b.S), Type: vocab.NoteType, Name: vocab.NaturalLanguageValues{{Ref: vocab.NilLangRef, Value: vocab.Content("new")}}, Summary: vocab.NaturalLanguageValues{{Ref: vocab.NilLangRef, Value: vocab.Content("s")}}}
+					before := vmodel.Canon(to, vmodel.Exact)
+					c.Distinct("idgrid|"+a.S+"|"+b.S, !equiv)
+					var err error
+					if c.Guard("CopyItemProperties", func() { _, err = vocab.CopyItemProperties(to, from) }) {
+						return
+					}
+					c.Eval(1)
+					c.Count("id-grid-pairs", 1)
+					if equiv {
+						c.Count("id-grid-equivalent", 1)
+						if err != nil {
+							c.Fail("copy|id-grid|equivalent-ids-refused", fmt.Sprintf("ids %q and %q are equivalent but the merge was refused: %v", a.S, b.S, err), map[string]any{"to": a.S, "from": b.S})
+						}
+						return
+					}
+					if err == nil {
+						c.Fail(fmt.Sprintf("copy|id-grid|%s|%s|not-refused", iriClass(a.S), iriClass(b.S)), fmt.Sprintf("ids %q and %q are not equivalent but the merge was not refused", a.S, b.S), map[string]any{"to": a.S, "from": b.S})
+					}
+					if ds := vmodel.Diff(before, vmodel.Canon(to, vmodel.Exact)); len(ds) > 0 {
+						c.Fail("copy|id-grid|to-touched", fmt.Sprintf("ids %q and %q are not equivalent but to was modified (%s)", a.S, b.S, ds[0].Path), map[string]any{"to": a.S, "from": b.S})
+					}
+				}},
 				{Name: "random-subsets", N: tierN(tier, 20000, 300000), Run: func(c *Ctx, idx int) {
 					k := vmodel.Kinds[vmodel.KindIndex(copyKinds[c.R.Intn(len(copyKinds))])]
 					fs := copyFields(k)
@@ -286,7 +333,7 @@ func init() {
 			}
 		},
 		Floors: func(tier string) map[string]int64 {
-			return map[string]int64{"copies": 20000, "refusals": 30, "kind:Actor": 500, "kind:OrderedCollectionPage": 500}
+			return map[string]int64{"copies": 20000, "refusals": 30, "id-grid-pairs": 3000, "kind:Actor": 500, "kind:OrderedCollectionPage": 500}
 		},
 		Assumptions: []string{"to and from are of the same kind and type with equivalent ids in the merge layers; merged properties are those the quantifier lists"},
 	})
